@@ -122,6 +122,12 @@ func registerIntrinsics(m *Machine) {
 		return nil
 	}
 	I["vfSymbolic"] = func(m *Machine, fr *frame, a []Value, _ *ssa.CallCommon) Value { return c.True }
+	I["vfParam"] = func(m *Machine, fr *frame, a []Value, _ *ssa.CallCommon) Value {
+		if v, ok := m.P.Params[m.concStr(a[0], "param")]; ok {
+			return c.BV(uint64(int64(v)), 64)
+		}
+		return a[1]
+	}
 	I["vfGhostSet"] = func(m *Machine, fr *frame, a []Value, _ *ssa.CallCommon) Value {
 		m.ghost[m.concStr(a[0], "key")] = a[1]
 		return nil
@@ -777,6 +783,20 @@ func (m *Machine) fmtTyped(v Value, t types.Type, verb byte) Str {
 	case Str:
 		return x
 	case Slice:
+		if verb == 'x' || verb == 'X' {
+			var sb strings.Builder
+			ok := true
+			for _, e := range x.V {
+				if t, isT := e.(*Term); isT && t.W == 8 && t.IsConst() {
+					fmt.Fprintf(&sb, "%02x", t.C)
+				} else {
+					ok = false
+				}
+			}
+			if ok {
+				return Str{S: sb.String()}
+			}
+		}
 		if verb == 's' {
 			bs := make([]*Term, 0, len(x.V))
 			ok := true
@@ -802,6 +822,58 @@ func (m *Machine) fmtTyped(v Value, t types.Type, verb byte) Str {
 // fmtUintSym renders a symbolic unsigned integer in decimal by forking on the digit count.
 func (m *Machine) fmtUintSym(x *Term) Str {
 	c := m.ctx
+	if s, ok := m.fmtMemo[x]; ok {
+		return s
+	}
+	if x.Op != OVar {
+		x = m.rewrite(x) // express x through the digits of variables already rendered
+		if x.IsConst() {
+			return Str{S: strconv.FormatUint(x.C, 10)}
+		}
+		if s, ok := m.fmtMemo[x]; ok {
+			return s
+		}
+	}
+	// x may be the value strconv parsed back from text we rendered ourselves:
+	// h (or its low bits) where zext(x0) == h is on the path condition.
+	{
+		base := x
+		k := int(x.W) // value of x == base mod 2^k
+		for {
+			if base.Op == OExtract && base.C&0xff == 0 {
+				if int(base.W) < k {
+					k = int(base.W)
+				}
+				base = base.Args[0]
+				continue
+			}
+			if base.Op == OZExt {
+				base = base.Args[0]
+				if int(base.W) < k {
+					k = int(base.W)
+				}
+				continue
+			}
+			break
+		}
+		if x0, ok := m.hornerOf[base]; ok {
+			m.refreshFacts()
+			fits := k >= int(x0.W)
+			if !fits {
+				if r, ok := m.rangeOf(base, 0); ok && k < 64 && r.hi < uint64(1)<<uint(k) {
+					fits = true
+				}
+			}
+			if s, ok := m.fmtMemo[x0]; ok && fits {
+				return s
+			}
+		}
+	}
+	defer func() {
+		if r := recover(); r != nil {
+			panic(r)
+		}
+	}()
 	w := int(x.W)
 	maxDigits := len(strconv.FormatUint(mask(x.W), 10))
 	nd := 1
@@ -816,15 +888,109 @@ func (m *Machine) fmtUintSym(x *Term) Str {
 		}
 		pow *= 10
 	}
+	// Definitional extension without division: fresh digit characters c_0..c_{nd-1}
+	// with '0' <= c_i <= '9', no leading zero, and x == Horner(c_i - '0') computed
+	// exactly as strconv.ParseUint does (uint64, n*10 + d), so that parsing the
+	// rendered text yields a term the simplifier/solver identifies with x.
 	digits := make([]*Term, nd)
-	cur := x
-	ten := c.BV(10, w)
-	for i := nd - 1; i >= 0; i-- {
-		d := c.Bin(OURem, cur, ten)
-		digits[i] = c.Bin(OAdd, c.Extract(d, 7, 0), c.BV('0', 8))
-		cur = c.Bin(OUDiv, cur, ten)
+	h := c.BV(0, 64)
+	for i := 0; i < nd; i++ {
+		d := c.Fresh("digit", SBV, 8)
+		digits[i] = d
+		m.pc = append(m.pc, c.Cmp(OULe, c.BV('0', 8), d), c.Cmp(OULe, d, c.BV('9', 8)))
+		if i == 0 && nd > 1 {
+			m.pc = append(m.pc, c.Not(c.Eq(d, c.BV('0', 8))))
+		}
+		h = c.Bin(OAdd, c.Bin(OMul, h, c.BV(10, 64)), c.ZExt(c.Bin(OSub, d, c.BV('0', 8)), 64))
+		// lemma (follows from the digit ranges): the prefix value is below 10^(i+1)
+		p10 := uint64(1)
+		for k := 0; k <= i; k++ {
+			p10 *= 10
+		}
+		m.pc = append(m.pc, c.Cmp(OULt, h, c.BV(p10, 64)))
 	}
-	return mkStr(digits)
+	res := mkStr(digits)
+	m.fmtMemo[x] = res
+	m.hornerOf[h] = x
+	if x.Op == OVar {
+		// solved form: eliminate the variable x in favour of its digits
+		// (x := low bits of the Horner value, which must fit x's width).
+		if w < 64 {
+			m.pc = append(m.pc, c.Cmp(OULe, h, c.BV(mask(x.W), 64)))
+		}
+		m.defEq[x] = c.Extract(h, w-1, 0)
+		m.rwMemo = nil
+		for i, p := range m.pc {
+			m.pc[i] = m.rewrite(p)
+		}
+		m.facts = nil
+	} else {
+		m.pc = append(m.pc, c.Eq(c.ZExt(x, 64), h))
+	}
+	return res
+}
+
+// fmtHexSym renders %x/%X of a (possibly symbolic) unsigned integer with full zero
+// padding, or of a byte slice, digit by digit (no forking).
+func (m *Machine) fmtHexSym(arg Value, verb byte, width int, zeroPad bool) (Str, bool) {
+	if verb != 'x' && verb != 'X' {
+		return Str{}, false
+	}
+	c := m.ctx
+	iv, ok := arg.(Iface)
+	if !ok || iv.T == nil {
+		return Str{}, false
+	}
+	var nibbles []*Term
+	switch v := iv.V.(type) {
+	case *Term:
+		if v.S != SBV || v.IsConst() || isSigned(iv.T) {
+			return Str{}, false
+		}
+		nd := int(v.W) / 4
+		if !zeroPad || width < nd {
+			return Str{}, false
+		}
+		for i := 0; i < width-nd; i++ {
+			nibbles = append(nibbles, c.BV(0, 4))
+		}
+		for i := nd - 1; i >= 0; i-- {
+			nibbles = append(nibbles, c.Extract(v, i*4+3, i*4))
+		}
+	case Slice:
+		sym := false
+		for _, e := range v.V {
+			t, ok := e.(*Term)
+			if !ok || t.W != 8 {
+				return Str{}, false
+			}
+			if !t.IsConst() {
+				sym = true
+			}
+		}
+		if !sym {
+			return Str{}, false
+		}
+		for i := 0; i < width-2*len(v.V); i++ {
+			nibbles = append(nibbles, c.BV(0, 4))
+		}
+		for _, e := range v.V {
+			t := e.(*Term)
+			nibbles = append(nibbles, c.Extract(t, 7, 4), c.Extract(t, 3, 0))
+		}
+	default:
+		return Str{}, false
+	}
+	alpha := uint64('a')
+	if verb == 'X' {
+		alpha = 'A'
+	}
+	out := make([]*Term, len(nibbles))
+	for i, n := range nibbles {
+		n8 := c.ZExt(n, 8)
+		out[i] = c.Ite(c.Cmp(OULt, n8, c.BV(10, 8)), c.Bin(OAdd, n8, c.BV('0', 8)), c.Bin(OAdd, n8, c.BV(alpha-10, 8)))
+	}
+	return mkStr(out), true
 }
 
 func (m *Machine) format(f Str, args []Value) Str {
@@ -865,15 +1031,40 @@ func (m *Machine) format(f Str, args []Value) Str {
 			i = j
 			continue
 		}
+		width := -1
+		if strings.Contains(flags, "*") {
+			// width from the argument list
+			wa := args[ai]
+			ai++
+			if iv, ok := wa.(Iface); ok {
+				if t, ok := iv.V.(*Term); ok {
+					width = int(m.concreteInt(t, "fmt width"))
+				}
+			}
+			flags = strings.Replace(flags, "*", "", 1)
+			if ai >= len(args) {
+				lit("%!" + string(verb) + "(MISSING)")
+				i = j
+				continue
+			}
+		} else if len(flags) >= 2 && flags[0] == '0' {
+			if wd, err := strconv.Atoi(flags[1:]); err == nil {
+				width = wd
+			}
+		}
+		zeroPad := len(flags) >= 1 && flags[0] == '0'
 		arg := args[ai]
 		ai++
-		r := m.fmtValue(arg, verb)
+		var r Str
+		if hx, ok := m.fmtHexSym(arg, verb, width, zeroPad); ok {
+			r = hx
+		} else {
+			r = m.fmtValue(arg, verb)
+		}
 		// zero-padded width for concrete numbers, e.g. %02x / %08x / %04d
-		if r.B == nil && len(flags) >= 2 && flags[0] == '0' {
-			if wd, err := strconv.Atoi(flags[1:]); err == nil {
-				for len(r.S) < wd {
-					r.S = "0" + r.S
-				}
+		if r.B == nil && zeroPad && width > 0 {
+			for len(r.S) < width {
+				r.S = "0" + r.S
 			}
 		}
 		if verb == 'q' && r.B == nil {
